@@ -159,6 +159,10 @@ Definition run_index_bytes (l : list Z) : list Z :=
 Definition search_out (reported : list Z) : list Z :=
   Z.of_nat (length reported) :: sort_z reported ++ reported.
 
+(* geometry.DefaultIndexOptions (series.go:39-42), used by Move; tied to the source by tools/gen_consts.py *)
+Definition default_index_min_points : nat := 64.
+Definition default_index_kind : Z := 2.
+
 Definition run_search (moved : bool) (l : list Z) : list Z :=
   match l with
   | sc :: kind :: cl :: n :: r =>
@@ -173,7 +177,7 @@ Definition run_search (moved : bool) (l : list Z) : list Z :=
              (QuadTree, MinPoints 64) first; the original kind is used only when that
              built no index and the original series had one *)
           let kind0 := if (length ps <? 1)%nat then 0 else kind in
-          let kind' := if (64 <=? length ps)%nat then 2 else kind0 in
+          let kind' := if (default_index_min_points <=? length ps)%nat then default_index_kind else kind0 in
           search_out (firstn_z k (series_search kind' (mk_series cl (move_pts ps dx dy)) ((a, b), (c, d))))
       | _, _ => BAD
       end
